@@ -174,6 +174,19 @@ def r2_header_bounds(ctx):
                 n += 1
                 r.check(core.contains_call(f.expr_of_op(rv[3][i]), 'codec::framed_read::calc_max_continuation_frames'), 'continuation|recomputed|' + name + '|ctor', '%s:%d' % (f.file, ln), 'constructor computes the limit')
     r.floor(n, 3, 'writers of FramedRead.max_continuation_frames (constructor + two setters)')
+    # the limit is a function of both inputs as they are: header_max / frame_max (>= 1), + 25 %, at least 5 — no clamping of either
+    cm = F.fn('codec::framed_read::calc_max_continuation_frames')
+    if cm:
+        rets = None
+        calls = [(t['fn'].rsplit('::', 1)[-1], [strip(cm.expr_of_op(a)) for a in t['a']]) for bi, t in cm.calls()]
+        mins = [c for c in calls if c[0] == 'min']
+        divs = [cm.expr_of_rvalue(rv) for bi, si, pl, rv, ln in cm.stmts() if rv[0] == 'bin' and rv[1] == 'Div']
+        okdiv = any(strip(d[2]) == ('arg', 1) and strip(d[3]) == ('arg', 2) for d in divs)
+        r.check(okdiv and not mins, 'continuation|limit-formula', cm.file,
+                'calc_max_continuation_frames divides header_max by frame_max as given (%s)%s' % (
+                    [core.show(d)[:40] for d in divs], '' if okdiv and not mins else ' — an input is clamped (min): with a raised max_frame_size the bound no longer shrinks and the partial header buffer can grow to limit x frame size'))
+    else:
+        r.bad('continuation|limit-formula|anchor', '', 'calc_max_continuation_frames not found')
     # both setters that change an input of the limit recompute it
     for setter in ('set_max_frame_size', 'set_max_header_list_size'):
         f = r.fn(FR + '::' + setter)
